@@ -580,7 +580,8 @@ def run(ck):
     ck.check_props(required=['C02_generic_implicit_matrix_form', 'C02_imex_matrix_form', 'C02_explicit_matrix_form', 'C02_multi_implicit_two_stage_form', 'C02_runge_kutta_stage_form', 'C02_imex_mass_matrix_form', 'C02_verlet_block_form', 'C02_verlet_end_point_form', 'C02_verlet_end_point_second_order_form',
                              'C02_integrate_is_dtQF', 'C02_end_point_quadrature', 'C02_residual_is_defect',
                              'C02_dae_fully_implicit_sweep_form', 'C02_dae_semi_implicit_sweep_form', 'C02_dae_runge_kutta_stage_form',
-                             'C02_boris_position_form', 'C02_boris_block_form'])
+                             'C02_boris_position_form', 'C02_boris_block_form',
+                             'C02_rkn_explicit_stage_form', 'C02_rkn_end_point_form', 'C02_multistep_update_form', 'C02_multistep_one_step_run_form'])
     from qmat.qdelta import QDELTA_GENERATORS
     from pySDC.implementations.sweeper_classes.generic_implicit import generic_implicit
     from pySDC.implementations.sweeper_classes.explicit import explicit
@@ -729,6 +730,7 @@ def run(ck):
                              match={'kind': 'verlet-correspondence'}, no_input=True)
             ck.obligation('exact correspondence verlet model = implementation on %d cases' % len(res), nb == 0)
     # ---- extension parts (own modules): DAE-project sweepers, boris_2nd_order, Runge-Kutta-Nystrom + Multistep
-    from harness import c02_dae, c02_boris
+    from harness import c02_dae, c02_boris, c02_rkn
     c02_dae.run_part(ck, ck.rng, thorough)
     c02_boris.run_part(ck, ck.rng, thorough)
+    c02_rkn.run_part(ck, ck.rng, thorough)
